@@ -1,10 +1,10 @@
 (* AllRun2.v -- the executable forms of the T2 invariants of the STAGE-2 engine model, evaluated together on one snapshot of
-   the real engine by the correspondence check (dispatch_model 38): L [cfg; state] -> L [A wfx2; A sched; A next; A svc2; A ren; A prio; A rows2].
+   the real engine by the correspondence check (dispatch_model 38): L [cfg; state] -> L [A wfx2; A sched; A next; A svc2; A ren; A prio; A rows2; A blk2].
    Invariants proved in a restricted scope are reported as 1 outside it. *)
 From Coq Require Import ZArith List Bool.
 From CiwV Require Import Sx Prelude.
 From CiwV.Engine Require Import State2 Engine2 Codec2.
-From CiwV.Inv Require Conserve2 Sched2 Preempt2 Renege2 Route2.
+From CiwV.Inv Require Conserve2 Sched2 Preempt2 Renege2 Route2 Samples2 Blocking2.
 Import ListNotations.
 Open Scope Z_scope.
 
@@ -14,10 +14,11 @@ Definition invs2_b (cf : config) (s : sim) : list bool :=
   [ Conserve2.wfx2_b s;                                              (* C01: conservation, every configuration *)
     Sched2.sched_inv_b cf s;                                         (* C12: on-duty servers follow the timetable, every configuration *)
     Sched2.next_inv_b cf s;                                          (* C12: no shift change is overdue; a shift change runs at its date *)
-    negb (Preempt2.no_sched_preempt cf) || Preempt2.SvcInv_b s;      (* C11: service stamps consistent (scope: no pre-emptive schedules / slots) *)
+    Samples2.SvcInv_b s;                                             (* C10 / C11: service stamps consistent (end = start + duration), every configuration *)
     negb (Renege2.nopre cf) || Renege2.RenInv_b cf s;                (* C13: reneging dates (scope: no pre-emption of any kind) *)
     Route2.PrioInv_b cf s;                                           (* C09: priority = mapping[current class], every configuration *)
-    Route2.routing_ok_b cf && Route2.ccm_ok_b cf ].                  (* C09: the hypotheses of the routing theorems hold of the configuration *)              (* C13: reneging dates (scope: no pre-emption of any kind) *)
+    Route2.routing_ok_b cf && Route2.ccm_ok_b cf;
+    forallb (fun b => b) (Blocking2.blocking2_b cf s) ].              (* C07 / C06: counter = length; in their scopes: nobody blocked while there is space, population <= capacity *)                  (* C09: the hypotheses of the routing theorems hold of the configuration *)              (* C13: reneging dates (scope: no pre-emption of any kind) *)
 
 Definition run_invs2 (inp : sx) : sx :=
   match inp with
@@ -29,17 +30,21 @@ Definition run_invs2 (inp : sx) : sx :=
   | _ => A (-1)
   end.
 
-Theorem invs2_b_sound cf s : invs2_b cf s = [true; true; true; true; true; true; true] ->
+Theorem invs2_b_sound cf s : invs2_b cf s = [true; true; true; true; true; true; true; true] ->
   Conserve2.WFx2 [] s /\ Sched2.SchedInv cf s /\ Sched2.NextInv cf s /\
-  (Preempt2.no_sched_preempt cf = true -> Preempt2.SvcInv s) /\ (Renege2.nopre cf = true -> Renege2.RenInv cf s) /\
-  Route2.PrioInv cf s /\ Route2.routing_ok cf /\ Route2.ccm_ok cf.
+  Samples2.SvcInv s /\ (Renege2.nopre cf = true -> Renege2.RenInv cf s) /\
+  Route2.PrioInv cf s /\ Route2.routing_ok cf /\ Route2.ccm_ok cf /\
+  Blocking2.Len2 s /\ (Blocking2.scope_blk cf = true -> Blocking2.Blk2 cf s) /\ (Blocking2.scope_cap cf = true -> Blocking2.Blk2 cf s /\ Blocking2.Cap2 cf s).
 Proof.
-  unfold invs2_b. intros H. injection H as H1 H2 H3 H4 H5 H6 H7.
+  unfold invs2_b. intros H. injection H as H1 H2 H3 H4 H5 H6 H7 H9.
   split; [apply Conserve2.wfx2_b_sound; exact H1|]. split; [apply Sched2.sched_inv_b_sound; exact H2|]. split; [apply Sched2.next_inv_b_sound; exact H3|].
-  split.
-  - intros Hs. rewrite Hs in H4. cbn in H4. apply Preempt2.SvcInv_b_sound. exact H4.
-  - split; [intros Hs; rewrite Hs in H5; cbn in H5; apply Renege2.RenInv_b_sound; exact H5|].
-    apply andb_true_iff in H7 as [H7 H8].
-    split; [apply Route2.PrioInv_b_sound; exact H6|]. split; [apply Route2.routing_ok_b_sound; exact H7|apply Route2.ccm_ok_b_sound; exact H8].
+  split; [apply Samples2.SvcInv_b_sound; exact H4|].
+  split; [intros Hs; rewrite Hs in H5; cbn in H5; apply Renege2.RenInv_b_sound; exact H5|].
+  apply andb_true_iff in H7 as [H7 H8].
+  split; [apply Route2.PrioInv_b_sound; exact H6|]. split; [apply Route2.routing_ok_b_sound; exact H7|]. split; [apply Route2.ccm_ok_b_sound; exact H8|].
+  assert (HB : Blocking2.blocking2_b cf s = [true; true; true; true]).
+  { unfold Blocking2.blocking2_b in *. cbn [forallb] in H9.
+    repeat (apply andb_true_iff in H9 as [?X H9]). congruence. }
+  destruct (Blocking2.blocking2_b_sound cf s HB) as (A & B & C & _). auto.
 Qed.
 Print Assumptions invs2_b_sound.
